@@ -348,12 +348,9 @@ func c09arrays(c *core.Ctx) {
 		total += l
 	}
 	// totals exactly on, one below and one above the pointer-width boundaries
-	// 2^8 and 2^16 (2^24 with the big item): where the width of an offset changes
+	// 2^8 and 2^16: where the width of an offset changes (a 2^24 total costs minutes per case on a loaded machine and is left out)
 	if r.Chance(0.15) && n > 0 {
 		target := core.Pick(r, []int{255, 256, 257, 65535, 65536, 65537})
-		if big && r.Bool() {
-			target = core.Pick(r, []int{1<<24 - 1, 1 << 24, 1<<24 + 1})
-		}
 		last := n - 1
 		if rest := total - len(items[last]); rest <= target {
 			items[last] = c09bytes(r, target-rest)
